@@ -328,3 +328,91 @@ impl Family for FClosureNest {
         Module { submodules: vec![], functions, imports: vec![] }
     }
 }
+
+/// Capture order: two sibling closures of one function each reference an ordered selection of
+/// three locals a < b < c (stack order), so that open upvalues are created in every order (low,
+/// high, then a slot in between …); the function returns, its stack area is reused by another
+/// call, and the closures are called afterwards.
+pub struct FClosureOrder;
+
+impl FClosureOrder {
+    fn selections() -> Vec<Vec<&'static str>> {
+        let vars = ["a", "b", "c"];
+        let mut out: Vec<Vec<&'static str>> = vec![vec![]];
+        for x in vars {
+            out.push(vec![x]);
+            for y in vars {
+                if y != x {
+                    out.push(vec![x, y]);
+                    for z in vars {
+                        if z != x && z != y {
+                            out.push(vec![x, y, z]);
+                        }
+                    }
+                }
+            }
+        }
+        out
+    }
+}
+
+impl Family for FClosureOrder {
+    fn name(&self) -> &'static str {
+        "F-closure-order"
+    }
+    fn len(&self) -> u64 {
+        let n = Self::selections().len() as u64;
+        n * n * 2
+    }
+    fn case(&self, idx: u64) -> Module {
+        let sel = Self::selections();
+        let n = sel.len() as u64;
+        let s1 = &sel[(idx % n) as usize];
+        let s2 = &sel[((idx / n) % n) as usize];
+        let in_loop = idx / (n * n) == 1;
+        let weight = |v: &str| match v {
+            "a" => 1,
+            "b" => 10,
+            _ => 100,
+        };
+        let body = |vars: &Vec<&'static str>, bump: i64| -> Vec<C> {
+            let mut cards: Vec<C> = Vec::new();
+            for v in vars.iter() {
+                cards.push(sv(v, add(rv(v), int(bump * weight(v)))));
+            }
+            cards.push(C::Return(b(vars.iter().fold(int(0), |acc, v| add(acc, rv(v))))));
+            cards
+        };
+        let mk = func(
+            &["p"],
+            vec![
+                sv("a", int(1)),
+                sv("b", int(2)),
+                sv("c", int(3)),
+                sv("c1", C::Closure(vec![], body(s1, 1000))),
+                sv("c2", C::Closure(vec![], body(s2, 1_000_000))),
+                log2("in1", dcall(rv("c1"), vec![])),
+                log2("in2", dcall(rv("c2"), vec![])),
+                log2("a", rv("a")),
+                log2("b", rv("b")),
+                log2("c", rv("c")),
+                sv("pair", C::CreateTable),
+                sv("pair.one", rv("c1")),
+                sv("pair.two", rv("c2")),
+                C::Return(b(rv("pair"))),
+            ],
+        );
+        // reuses the stack area of the returned frame with other values
+        let churn = func(&["x", "y"], vec![sv("l1", int(-1)), sv("l2", int(-2)), sv("l3", int(-3)), sv("l4", int(-4)), C::Return(b(add(rv("x"), rv("y"))))]);
+        let use_pair = vec![
+            sv("got", call("mk", vec![int(5)])),
+            log2("churn", call("churn", vec![int(7), int(8)])),
+            log2("out1", dcall(rv("got.one"), vec![])),
+            log2("churn", call("churn", vec![int(9), int(10)])),
+            log2("out2", dcall(rv("got.two"), vec![])),
+            log2("out1 again", dcall(rv("got.one"), vec![])),
+        ];
+        let main = if in_loop { vec![sv("keep", int(77)), C::Repeat { n: b(int(2)), i: Some("round".into()), body: b(comp(use_pair)) }, log2("keep", rv("keep"))] } else { use_pair };
+        module(vec![("main", func(&[], main)), ("mk", mk), ("churn", churn)])
+    }
+}
